@@ -483,10 +483,13 @@ def run(repo: Repo, rep: Report, tier: str) -> None:
     from .c11 import union_write_fold_rule
 
     union_write_fold_rule(repo, rep, "C02.R12")
+    from .memo import memo_rule
 
+    memo_rule(repo, rep, "C02.R17")
+    from .c05 import call_time_rule
+    from .c06 import unit_switch_rule
+    from .c17 import one_list_rule
 
-
-
-
-
-
+    call_time_rule(repo, rep, "C02.R18")
+    one_list_rule(repo, rep, "C02.R19")
+    unit_switch_rule(repo, rep, "C02.R20")
